@@ -26,7 +26,9 @@ type sessCase struct {
 var (
 	plainNames   = []string{"t/a", "t/b", "t/c", "x/y/z", "q", "t/a/deep"}
 	wildFilters  = []string{"t/+", "t/#", "#", "+/y/+"}
-	shortNames   = []string{"ab", "t/", "zz"}
+	shortNames   = []string{"ab", "t/", "zz", "\u00e9"} // (the last one: one character, two octets)
+	// names whose length in characters and in octets differ around the short-topic limit of two octets
+	oddNames = []string{"\u00b0C", "\u00b5s", "a\u00e9", "\u00e9\u00e9"}
 	predefNames  = []string{"p/one", "p/two", "p/three", "t/a", "ab"}
 	msgIDPool    = []uint16{1, 2, 3, 0xffff, 0xfffe}
 	clientIDPool = []string{"cl", "c2", "nobody"}
@@ -163,7 +165,7 @@ func genSession(t *rapid.T, o sessOpts) sessCase {
 				auto.RegackRC = byte(rapid.IntRange(1, 3).Draw(t, "regack_rc"))
 			}
 			sc.Steps = append(sc.Steps, gwgen.SetAuto(auto),
-				gwgen.MQ(gwgen.BPublish(rapid.SampledFrom(plainNames).Draw(t, "name"), byte(rapid.IntRange(0, 2).Draw(t, "qos")), 0x100+mid%0x100, []byte("b"), false, false)),
+				gwgen.MQ(gwgen.BPublish(rapid.SampledFrom(plainNames).Draw(t, "name"), byte(rapid.IntRange(0, 2).Draw(t, "qos")), 0x100+mid%0x100, []byte(fmt.Sprintf("b-%d", i)), false, false)),
 				gwgen.SetAuto(sc.Auto))
 		case "register-new":
 			nextName++
@@ -236,11 +238,13 @@ func genSession(t *rapid.T, o sessOpts) sessCase {
 			sc.Steps = append(sc.Steps, gwgen.SN(p))
 		case "bpub":
 			var topic string
-			switch rapid.IntRange(0, 4).Draw(t, "btopic") {
+			switch rapid.IntRange(0, 5).Draw(t, "btopic") {
 			case 0:
 				topic = rapid.SampledFrom(shortNames).Draw(t, "short")
 			case 1:
 				topic = rapid.SampledFrom(predefNames).Draw(t, "pname")
+			case 5:
+				topic = rapid.SampledFrom(oddNames).Draw(t, "odd")
 			default:
 				topic = rapid.SampledFrom(plainNames).Draw(t, "name")
 			}
@@ -510,11 +514,11 @@ func TestC01(t *testing.T) {
 func TestC02(t *testing.T) {
 	vf.Check(t, vf.Prop[sessCase]{
 		ID: "C02", Name: "broker-publish-resolvable", Bubble: true,
-		Rule: "connected session with a cooperative scripted client (accepts REGISTERs, completes QoS 1/2), predefined maps with shadowing between the client's entry and '*', and broker PUBLISH steps on short names, predefined names (own, '*'-only, shadowed), registered names, names introduced by SUBACK and brand-new names (sometimes two at the same instant, sometimes at the same instant as the client's own REGISTER or SUBSCRIBE of that name, in either order), QoS 0-2, retain, payload <= 7168. Non-trivial = the topic needed a REGISTER, or is predefined with an ID defined for both the client and '*'; distinct by script.",
+		Rule: "connected session with a cooperative scripted client (accepts REGISTERs, completes QoS 1/2), predefined maps with shadowing between the client's entry and '*', and broker PUBLISH steps on short names, predefined names (own, '*'-only, shadowed), registered names, names introduced by SUBACK and brand-new names, names of two characters but three octets (sometimes while the client refuses or ignores the gateway's REGISTER; sometimes two at the same instant, sometimes at the same instant as the client's own REGISTER or SUBSCRIBE of that name, in either order), QoS 0-2, retain, payload <= 7168. Non-trivial = the topic needed a REGISTER, or is predefined with an ID defined for both the client and '*'; distinct by script.",
 		Assumptions: []string{"only deliveries to an active client are judged (sleep is C11)", "the client resolves IDs only from its own knowledge: short decoding, the shared predefined configuration, REGISTERs it accepted, REGACKs/SUBACKs it received",
 			"half of the scripted clients accept every REGISTER; the other half behave like bisquitt's own client (client/net.go): a REGISTER for a name already held under another topic ID is refused with 'invalid topic ID'"},
 		Gen: func(t *rapid.T) sessCase {
-			return genSession(t, sessOpts{brokerPublishes: true, maxSteps: 10})
+			return genSession(t, sessOpts{brokerPublishes: true, refusedRegisters: true, maxSteps: 10})
 		},
 		Run: func(c sessCase) (r vf.Result) {
 			tr := gwsim.Run(c.Script)
@@ -524,8 +528,23 @@ func TestC02(t *testing.T) {
 				m    mqttref.Pkt
 				step int
 				ns   int64
+				at   int // event index
 			}
+			refusedAt := map[string][]int{} // name -> event indices of REGISTERs which reached a refusing/ignoring client
 			var wants []want
+			// steps during which the scripted client refuses or ignores the gateway's REGISTERs: a
+			// publish which needs a REGISTER then is outside the property (but an ID from such a
+			// REGISTER must never be used)
+			refusing := map[int]bool{}
+			cur := c.Script.Auto
+			for i, st := range c.Script.Steps {
+				if st.K == "auto" && st.Auto != nil {
+					cur = *st.Auto
+				}
+				if !cur.ClientRegack || cur.RegackRC != 0 {
+					refusing[i] = true
+				}
+			}
 			var got []struct {
 				p   snref.Pkt
 				reg *snref.Pkt // REGISTER for this name seen before it, if any
@@ -539,12 +558,15 @@ func TestC02(t *testing.T) {
 				}
 				k.feed(i, e)
 				if e.Dir == gwsim.BG && e.MQ != nil && e.MQ.Type == mqttref.PUBLISH && !e.Auto {
-					wants = append(wants, want{*e.MQ, e.Step, e.Ns})
+					wants = append(wants, want{*e.MQ, e.Step, e.Ns, i})
 				}
 				if e.Dir == gwsim.GC && e.SN != nil && e.SN.Type == snref.REGISTER {
 					regs[e.SN.TopicName] = *e.SN
+					if refusing[e.Step] {
+						refusedAt[e.SN.TopicName] = append(refusedAt[e.SN.TopicName], i)
+					}
 				}
-				if e.Dir == gwsim.CG && e.Auto && e.SN != nil && e.SN.Type == snref.REGACK && e.SN.RC == 2 {
+				if e.Dir == gwsim.CG && e.Auto && e.SN != nil && e.SN.Type == snref.REGACK && e.SN.RC == 2 && !refusing[e.Step] {
 					// the strict client (name -> ID is a function, like bisquitt's own client) turned a REGISTER down
 					r.Fail("register-for-name-the-client-holds", "the gateway sent a REGISTER (topic ID %d) for a name the client already holds another topic ID for; a client whose name table is a function (bisquitt's own) must refuse it, and the PUBLISH cannot resolve\n%s", e.SN.TopicID, tr.Dump(30))
 					return
@@ -577,6 +599,14 @@ func TestC02(t *testing.T) {
 				if gi < 0 {
 					if endedBefore(tr, w.ns+101e6) {
 						break
+					}
+					exempt := refusing[w.step]
+					for _, at := range refusedAt[tn] {
+						exempt = exempt || at > w.at
+					}
+					if exempt {
+						r.Label("register-refused-by-client")
+						continue
 					}
 					r.Fail("broker-publish-not-delivered", "broker %v never reached the client unchanged (same payload, QoS, retain)\n%s", w.m, tr.Dump(30))
 					break
